@@ -23,7 +23,21 @@ THEOREMS = [
     "C04.parseWhen_strlit_paren_counterexample",
     "C04.parseThen_strlit_semicolon_counterexample",
     "C04.prefix_salience_negative_counterexample",
+    "C04.attributes_render",
+    "C04.attributes_any_order",
+    "C04.splitRules_render",
+    "C04.parseRule_render",
+    "C04.cleanText_single_line",
+    "C04.parseRules_render",
+    "C04.parseSingleRule_render",
+    "C04.parseWithModules_render",
+    "C04.parseAction_set_int",
+    "C04.parseSingleCondition_cmp_int",
+    "C04.parseRules_render_int",
+    "C04.parseRules_render_comments",
+    "C04.parseRules_render_nth",
 ]
+LEAN_TARGETS = ["RreModel.C04.Theorems", "RreModel.C04.Theorems2", "RreModel.C04.Theorems3", "RreModel.C04.Theorems4", "RreModel.C04.Theorems5"]
 N = {"quick": 2300, "thorough": 40000}
 EXHAUSTIVE = {"quick": False, "thorough": False}
 RULE = ("cases = corpus (witness of every fixed defect and of every open finding) + every subset of the seven rule attributes in a "
@@ -50,7 +64,10 @@ RULE = ("cases = corpus (witness of every fixed defect and of every open finding
         "arrays, identifiers, paths, arithmetic), the same for rule names, descriptions and group names, every action form, three layout strengths (blanks / mixed white space and redundant parentheses / comments "
         "with GRL metacharacters anywhere white space is allowed, ;; lines and defmodule blocks between rules); every 7th case is "
         "from the tagged stream M:<class>: one string literal with a GRL metacharacter in one position (the former F-C04b witnesses, which "
-        "must pass) or a form hit by an open finding (wfdata, method, firstvar). The file is "
+        "must pass) or a form hit by an open finding (wfdata, method, firstvar). every 10th case is from the family RF:<layout word>: the file is rendered by a Rust port of the Lean "
+        "renderer `renderFile` of the whole-file theorems (one palette index per white-space slot: blanks / tabs / line breaks / comments), "
+        "and the oracle re-renders the case in Lean from (layout word, abstract rules) and requires the text to be identical "
+        "(`render-agrees`; `rf_thm_hyp` = within the hypotheses of parseRules_render: one line per rule, no comments). The file is "
         "given to GRLParser::parse_rules and parse_with_modules and every rule text to parse_rule (real code); the three returned "
         "ASTs are printed canonically and (a) compared with the Lean model's prediction, (b) compared by the oracle with "
         "print(expected(abstract rule list carried by the case)). non-trivial = at least one rule and at least 3 condition nodes.")
@@ -94,7 +111,16 @@ LEVEL_TEXT = ("Lean 4 theorems (kernel-checked, unbounded: every condition tree,
               "after the masking returns the arguments that were written whatever their string literals contain, comments and quoted "
               "header strings are opaque; tied to src/parser/grl.rs by a correspondence check on generated GRL files (full AST of "
               "parse_rules / parse_rule / parse_with_modules vs model) and by the round-trip oracle on the implementation's own output.")
-LEVEL_NOTE = ("Partial: the regex capture layer is modelled by scanning functions and tied by the correspondence only. String literals "
+LEVEL_NOTE = ("Whole files (Theorems3): splitRules_render / parseRule_render / parseRules_render / parseRules_render_nth / parseSingleRule_render "
+              "— over the model's scanners for rule_split_regex, rule_regex, when_then_regex, the splitter returns one block per rule in source "
+              "order and every rule comes back with its name, salience, every attribute (attributes_render: any order, any white space), its "
+              "condition TREE and statement LIST as written, leaf parsers' results at the leaves; hypotheses: one line per rule, no comments, "
+              "no `}` / ` then ` outside literals (open: parseRules_render_full = line breaks, hence comments, INSIDE rules; comments between rules with arbitrary text: parseRules_render_comments). Leaves (Theorems4): "
+              "parseSingleCondition_cmp_int / parseAction_set_int follow the leaf parsers on `Object.field op <i64>` / `field = <i64>` as written, "
+              "parseRules_render_int = the property's sentence with nothing abstract for that sub-grammar; the other leaf forms are covered by the "
+              "correspondence only. The renderer of these theorems (File.lean renderFile) is the one whose "
+              "outputs the RF family feeds to the real parser: the oracle re-renders every RF case in Lean and compares (render-agrees). "
+              "Partial: the regex capture layer is modelled by scanning functions and tied by the correspondence only. String literals "
               "are opaque by theorem: after mask_string_literals the round trips hold for literal bodies with arbitrary content "
               "(…_strlit_opaque, unmask_mask_strlit); the …_counterexample theorems are about the pipeline without the masking. Trusted: Lean kernel + {propext, Classical.choice, Quot.sound}; hand-written model; harness/driver glue.")
 DESIGN_REF = "§6 C04"
